@@ -144,6 +144,18 @@ func pathID(p []int) string {
 	return s
 }
 
+// CurrentID returns the canonical id of the calling task ("" outside a
+// simulated run or on a goroutine that is not a task).
+func CurrentID() string {
+	if atomic.LoadInt32(&on) == 0 {
+		return ""
+	}
+	if t := current(); t != nil {
+		return t.ID
+	}
+	return ""
+}
+
 // Child allocates, in the parent, the task record of a goroutine about to be
 // started. Returns nil outside a simulated run.
 func Child(site string) *Task {
